@@ -117,6 +117,7 @@ def run(ctx):
     r119_views(ctx)
     r121(ctx)
     r122(ctx)
+    r124(ctx)
     from . import c02 as _c02
     _c02.r29(ctx, 'R1.20')
     from . import c07
@@ -640,3 +641,17 @@ def r122(ctx, rule='R1.22'):
             ok = True
     ctx.ob(rule, 'writer.iter_dataframe:offsets-must-start-at-zero-and-increase', ok,
            'rows before the first offset are not in any chunk; offsets out of order put rows into two chunks', wr.loc(f))
+
+
+def r124(ctx, rule='R1.24'):
+    """an object column cast to an integer type (the encoding was guessed from a sample) is compared with its values
+    afterwards: int() of a float drops the fraction silently"""
+    wr = ctx.repo['writer']
+    n = 0
+    for q in ('write_column', 'convert'):
+        f = wr.func(q)
+        checks = [x for x in walk_no_nested(f) if isinstance(x, ast.If) and "astype('float64')" in norm(x.test) and '!=' in norm(x.test)
+                  and any(isinstance(r, ast.Raise) for r in x.body)]
+        n += len(checks)
+        ctx.ob(rule, 'writer.%s:integer-cast-of-object-values-verified' % q, len(checks) >= 1,
+               'object values cast with astype(int*) without comparing back: 3.5 becomes 3', wr.loc(f))
